@@ -340,6 +340,13 @@ def main(fn):
     except Infra as e:
         print("ERROR (machinery, not a verdict): %s" % e, file=sys.stderr)
         sys.exit(2)
+    except SystemExit:
+        raise
+    except BaseException:
+        import traceback
+        traceback.print_exc()
+        print("ERROR (machinery, not a verdict): unexpected exception in the check script", file=sys.stderr)
+        sys.exit(2)
 
 
 # --------------------------------------------------------------------------
